@@ -10,5 +10,6 @@ CONSTANTS
   MaxFaults = 1
   StoreMetaFirst = FALSE
   KillWaits = FALSE
+  ReplaceStaleDel = TRUE
 INVARIANT NeverDeletesNeeded
 CHECK_DEADLOCK FALSE
